@@ -22,6 +22,7 @@ import (
 	"bytes"
 	"context"
 	"crypto/ecdh"
+	crand "crypto/rand"
 	"encoding/binary"
 	"fmt"
 	"sort"
@@ -231,7 +232,60 @@ func c18Describe(b *c18Built, rd *n2Reader) string {
 		reads = append(reads, strconv.Itoa(len(l)))
 	}
 	keys := fmt.Sprintf("%d,%s", negCurveIDOf(ks.Ecdhe), negKeySet(ks))
-	return fmt.Sprintf("wire=%s keys=%s match=%s sid=%d reads=%s srcs=%s", joinList(wire), keys, joinList(match), sidLen, joinList(reads), joinList(srcs))
+	// where in the stream the reader served (all chunks concatenated) each secret lies: name:offset:length
+	var offs []string
+	locate := func(name string, want []byte, tolerant bool) {
+		off := bytes.Index(rd.served, want)
+		if off < 0 && tolerant && len(want) > 2 {
+			if i := bytes.Index(rd.served, want[2:]); i >= 2 {
+				off = i - 2
+			}
+		}
+		offs = append(offs, fmt.Sprintf("%s:%d:%d", name, off, len(want)))
+	}
+	locate("random", random, false)
+	if sidLen > 0 {
+		locate("sid", sid, false)
+	}
+	if len(b.seed) > 0 {
+		gb := make([]byte, 2*len(b.seed))
+		for i, v := range b.seed {
+			binary.LittleEndian.PutUint16(gb[2*i:], v)
+		}
+		off := bytes.Index(rd.served, gb[:4])
+		offs = append(offs, fmt.Sprintf("grease:%d:%d", off, len(gb)))
+	}
+	seen2 := map[uint16]bool{}
+	for idx, s := range shares {
+		if negIsGrease(s.group) || seen2[s.group] || match[idx] != "1" {
+			seen2[s.group] = seen2[s.group] || !negIsGrease(s.group)
+			continue
+		}
+		seen2[s.group] = true
+		switch s.group {
+		case 4588, 0x6399:
+			ek, mk := ks.EcdheKeys[tls.CurveID(s.group)], ks.MlkemKeys[tls.CurveID(s.group)]
+			if ek == nil {
+				ek = ks.MlkemEcdhe
+			}
+			if mk == nil {
+				mk = ks.Mlkem
+			}
+			locate(fmt.Sprintf("k%d", idx), ek.Bytes(), false)
+			locate(fmt.Sprintf("m%d", idx), mk.Bytes(), false)
+		default:
+			k := ks.EcdheKeys[tls.CurveID(s.group)]
+			if k == nil {
+				k = ks.Ecdhe
+			}
+			locate(fmt.Sprintf("k%d", idx), k.Bytes(), s.group != 29)
+		}
+	}
+	readsTok, srcsTok := joinList(reads), joinList(srcs)
+	if rd.mode != "" && rd.mode != "full" {
+		readsTok, srcsTok = "-", "-" // logical reads are not observable under a chunking reader; offsets are
+	}
+	return fmt.Sprintf("wire=%s keys=%s match=%s sid=%d reads=%s srcs=%s offs=%s total=%d", joinList(wire), keys, joinList(match), sidLen, readsTok, srcsTok, joinList(offs), len(rd.served))
 }
 
 // c18Build builds the hello of a case (TLS or QUIC client; optionally the preset applied twice).
@@ -330,7 +384,7 @@ func c18SharesExec(in KV) string {
 	if in["seed"] != "" {
 		seed = in.U64("seed")
 	}
-	rd := newN2Reader(seed)
+	rd := newN2ReaderMode(seed, in["rd"])
 	b, specDesc, bad := c18Build(in, rd)
 	if bad != "" {
 		return bad
@@ -408,6 +462,9 @@ func c18FreshExec(in KV) string {
 	rands, sids, shares := map[string]bool{}, map[string]bool{}, map[string]bool{}
 	nshares := 0
 	shared := &tls.Config{ServerName: "example.golang", OmitEmptyPsk: cl.omitPsk} // Rand nil: crypto/rand
+	if in["rd"] != "" && in["rd"] != "full" {
+		shared.Rand = &c18ChunkedCryptoRand{mode: in["rd"]} // real randomness handed out in short reads
+	}
 	for i := 0; i < n; i++ {
 		c, err := n2ClientFor(in)
 		if err != nil {
@@ -430,6 +487,30 @@ func c18FreshExec(in KV) string {
 		}
 	}
 	return fmt.Sprintf("rands=%d sids=%d shares=%d/%d", len(rands), len(sids), len(shares), nshares)
+}
+
+// c18ChunkedCryptoRand serves crypto/rand bytes under a reader discipline (see n2Reader).
+type c18ChunkedCryptoRand struct {
+	mode string
+	n    int
+}
+
+func (r *c18ChunkedCryptoRand) Read(p []byte) (int, error) {
+	if len(p) == 0 {
+		return 0, nil
+	}
+	r.n++
+	k := 1
+	switch r.mode {
+	case "short":
+		k = 1 + r.n%len(p)
+	case "zero":
+		if r.n%4 == 0 {
+			return 0, nil
+		}
+		k = 1 + r.n%len(p)
+	}
+	return crand.Read(p[:k])
 }
 
 // ---- generators ----
@@ -459,6 +540,14 @@ func c18MkPlan() *c18Plan {
 			p.shares = append(p.shares, fmt.Sprintf("id=%s src=parrot via=%s", name, via))
 		}
 		p.shares = append(p.shares, fmt.Sprintf("id=%s src=fp via=tls", name))
+		// reader disciplines: Config.Rand serving one byte per Read / random short reads / occasional empty reads
+		for i, rd := range []string{"one", "short", "zero"} {
+			via := "tls"
+			if i == len(name)%3 {
+				via = "quic"
+			}
+			p.shares = append(p.shares, fmt.Sprintf("id=%s src=parrot via=%s rd=%s", name, via, rd))
+		}
 		p.reapply = append(p.reapply, fmt.Sprintf("id=%s src=parrot", name))
 		p.fresh = append(p.fresh, fmt.Sprintf("id=%s src=parrot n=12", name))
 		// handshakes: the server forced to every offered share and to every listed classical group without share
@@ -477,6 +566,7 @@ func c18MkPlan() *c18Plan {
 			p.shares = append(p.shares, fmt.Sprintf("id=Chrome-133 src=custom mods=%s,sg=4588+29+23+24+25+25497 via=%s", ks, via))
 		}
 		toks := fmt.Sprintf("id=Chrome-133 src=custom mods=%s,sg=4588+29+23+24+25+25497", ks)
+		p.shares = append(p.shares, toks+" via=tls rd=one", toks+" via=tls rd=zero")
 		p.reapply = append(p.reapply, toks)
 		ch, err := n2Inspect(toks + " seed=1")
 		if err != nil {
@@ -492,7 +582,11 @@ func c18MkPlan() *c18Plan {
 	p.shares = append(p.shares, "id=Chrome-133 src=custom mods=quictp,only13 via=quicstart", "id=Firefox-120 src=custom mods=quictp,only13 via=quicstart",
 		"id=Chrome-133 src=custom mods=quictp,only13,ks=4588+23+29 via=quicstart")
 	p.fresh = append(p.fresh, "id=Chrome-133 src=custom mods=ks=4588+25497+29+23+24+25,sg=4588+29+23+24+25+25497 n=8",
-		"id=Golang-0 src=rand n=10")
+		"id=Golang-0 src=rand n=10",
+		// real randomness served one byte per Read / in short reads: enough connections that a key derived from
+		// a single byte of it would repeat (64 draws from 256 values collide with probability > 0.999)
+		"id=Chrome-133 src=parrot n=64 rd=one", "id=Chrome-115_PQ src=parrot n=64 rd=one", "id=Chrome-131 src=parrot n=64 rd=short",
+		"id=Firefox-120 src=parrot n=64 rd=one", "id=Chrome-133 src=custom mods=ks=4588+25497+25+24,sg=4588+29+23+24+25+25497 n=64 rd=zero")
 	sort.Strings(p.hs)
 	return p
 }
